@@ -734,7 +734,7 @@ impl<'a> Gen<'a> {
     pub fn batch(&mut self, n: usize) -> Batch {
         let mut b = Batch { ops: Vec::new(), post: Vec::new(), has_dep: false, chains: 0, groups: HashSet::new() };
         // a timeout that completes through its completion count: must see `c` later completions
-        if n >= 3 && self.allow_count_timeout && self.r.chance(1, 10) {
+        if n >= 3 && self.allow_count_timeout && !self.disabled.contains("timeout") && self.r.chance(1, 10) {
             let c = self.r.range(1, (n as u64 - 1).min(5));
             let mut o = OpRun::new(Op::Timeout { sec: 4, nsec: 0, relative: true, count: Some(c) }, 0);
             o.note = "count";
